@@ -985,6 +985,7 @@ class _Run(object):
         side_limit = any(contract(self.prio(), self._round_behs(r), c['max_errors'])[1] for r in side)
         side_mal = any(e['beh'] == 'malformed' for r in side for e in r['entries'])
         side_fail = side_unanswered or side_limit
+        self._side_fail = side_fail or side_mal
         if side:
             ctx.klass('side-blockcount-round')
             for r in side:                     # heights obtained on the way are legitimate cache content too
@@ -1335,6 +1336,26 @@ class _Run(object):
                         self.disc('cache.gettransactions.differs', '%s: cached transaction %d differs from what was '
                                   'stored: %s' % (what, n, diff))
                         return
+                if not asked and a['addr'] not in self.lied_empty and not self.tainted and \
+                        (after < 0 or after in U.history(a['addr'])):
+                    # (an after_txid that is not a transaction of this address has no defined answer)
+                    # answered from the cache alone: the cache vouches for the history being complete up to its
+                    # block count, so fewer rows than the limit means "there is nothing more" - that must be true
+                    # of the confirmed chain
+                    conf = [n for n in hist if U.txs[n]['height'] is not None]
+                    lim = max(a.get('limit', 20), 0)
+                    if len(got) < min(lim, len(conf)) and got == conf[:len(got)]:
+                        # when the block count round of this very query failed, the library compared the address's
+                        # last block with a stale / zero block count: the recorded blockcount finding at work
+                        bcs = [e for e in _ST.log if e.get('m') == 'blockcount']
+                        bc_failed = getattr(self, '_side_fail', False) or \
+                            (bool(bcs) and bcs[-1].get('beh') not in ANSWER)
+                        self.disc('cache.gettransactions.truncated', '%s answered from the cache alone with %r although '
+                                  'the confirmed history goes on: %r (limit %d); no provider was asked%s' %
+                                  (what, got, conf, lim, ' (the last block count request had failed: the library works '
+                                   'with a stale / zero block count)' if bc_failed else ''),
+                                  kf=F_BC_STALE if bc_failed else None)
+                        return
                 if len(v) > max(a.get('limit', 20), 0) and all(len(e['val']) <= e['args'][2] for e in cands):
                     self.disc('wrong-answer.gettransactions', '%s returned %d transactions, limit %d' %
                               (what, len(v), a.get('limit', 20)))
@@ -1574,6 +1595,14 @@ def cache_scenarios(ctx):
                             [q('getutxos', addr=addr, after=-1, limit=20)]))
                 out.append((['gettransaction'], [q('gettransaction', tx=tx)] + mid(0, False, reopen) +
                             [q('getbalance', addrs=[addr]), q('gettransactions', addr=addr, after=-1, limit=20)]))
+    # a history read in limited steps, then without limit
+    for addr in (0, 1):
+        for l1, l2 in ((1, 2), (1, 3), (2, 3), (2, 4), (1, 20), (2, 20)):
+            for reopen in tf:
+                out.append((['gettransactions'], [q('gettransactions', addr=addr, after=-1, limit=l1),
+                                                  q('gettransactions', addr=addr, after=-1, limit=l2)] +
+                            mid(0, False, reopen) + [q('gettransactions', addr=addr, after=-1, limit=20),
+                                                     q('addrinfo', addr=addr)]))
     # what the cache claims about an address after its history / its UTXOs were read once or twice
     for addr in (0, 1):
         gt = q('gettransactions', addr=addr, after=-1, limit=20)
